@@ -77,6 +77,11 @@ def create_pyopenssl_server_context(
     ctx.use_certificate_file(certfile, crypto.FILETYPE_PEM)
     ctx.use_privatekey_file(keyfile, crypto.FILETYPE_PEM)
 
+    # OpenSSL refuses to resume a session ("session id context uninitialized")
+    # on a context that verifies peers unless a session id context is set, so
+    # every reconnecting client that offered its session was dropped mid-handshake.
+    ctx.set_session_id(b"nauyaca-gemini")
+
     if request_client_cert:
         # Request client cert with custom callback that accepts all
         ctx.set_verify(SSL.VERIFY_PEER, verify_callback)
